@@ -33,7 +33,10 @@ def all_cases(tier):  # noqa: F811
 
 def shards(tier):  # noqa: F811
     n = len(all_cases(tier))
-    return [dict(lo=lo, hi=min(n, lo + _base.CHUNK)) for lo in range(0, n, _base.CHUNK)]
+    out = [dict(lo=lo, hi=min(n, lo + _base.CHUNK)) for lo in range(0, n, _base.CHUNK)]
+    ne = len(_base.example_cases(tier))
+    out += [dict(kind="examples", lo=lo, hi=min(ne, lo + 8)) for lo in range(0, ne, 8)]
+    return out
 
 
 def post_depth(tier, idx):
@@ -53,6 +56,9 @@ def run_shard(shard, tier):
 
 
 def replay(case):
+    if case.get("kind") == "example":
+        r = solved.run_example_as_model(case["example"], case["kwargs"], case["backend"])
+        return [dict(key=k, msg=m, case=case) for k, m in r[WHICH]]
     r = solved.run(case["spec"], case["config"], post_depth=case.get("post_depth", 0))
     return [dict(key=k, msg=m, case=case) for k, m in r[WHICH]]
 
